@@ -116,6 +116,45 @@ CLAIMS = {
         note=NOTE_COMMON + "CPython bytecode interleaving, the import lock and the GIL are runtime behaviour the model cannot exhibit; the stress run is a search, not a proof.",
         technique="Lean 4 proof (induction over schedules) + shared-write monitor and thread stress on the implementation",
         design="DESIGN.md §5 C19"),
+    'C09': dict(
+        text="Proved on the element-graph model Hl7.Heap (nodes with parent / traversal-parent pointers, ordered child list, shadow index; operations keep the heap on "
+             "errors), for every heap, every structure and all arguments: a successful append puts the child at the end of the parent's list, once, and changes no other "
+             "list except that the previous parent loses the child; remove deletes exactly the addressed child and touches no other list; insert keeps the position; a "
+             "successful replace_child edits the list in place (l.set (l.idxOf old) new = the reference model's replacement on a duplicate-free list). The per-name view is "
+             "the list filtered by name. That the API operations (set by name / long name / index, add, add_<child>, del, remove, copies, re-attachment) reduce to these and "
+             "that the ENCODING equals the ordered-list reference model is decided by the API-history harness on Segment and Message roots (partial: the encoder over the graph is not a theorem here).",
+        note=NOTE_COMMON + "Structure knowledge (_is_valid_child, cardinalities) is an abstract parameter of the model; ElementList.set's lookup of the addressed repetition is exercised, not proved.",
+        technique="Lean 4 proof (case analysis per path of each operation; list lemmas) + differential correspondence of random histories on real objects + ordered-list reference model on API histories",
+        design="DESIGN.md §5 C09-C12"),
+    'C10': dict(
+        text="Proved: the invariant Inv (no element lists a child twice; every listed child exists and reports the listing element as its parent, hence is listed by no other "
+             "element; a listed child has the validation level and version of the element listing it) is preserved by EVERY operation of the core - append, insert, remove, "
+             "replace_child, the parent setter in both directions, the traversal-parent setter, promotion of a traversal chain - accepted or rejected, for every heap, every "
+             "structure and all arguments; hence it holds in every state reachable from freshly constructed elements by any sequence of them (C10_reachable, induction over "
+             "the history, no length bound). Agreement of len / iteration / indexing / containment / lookup by name with the list is checked on every state of the histories "
+             "on real objects (the by-name index is a separate Python dict the model does not carry).",
+        note=NOTE_COMMON + "The model's operations are the post-repair ElementList / parent-setter code (findings D8, D9, D23-D26 were violations of this invariant and are repaired in /repo).",
+        technique="Lean 4 proof (invariant by induction over operation sequences) + differential correspondence + invariant checker on real object graphs",
+        design="DESIGN.md §5 C09-C12"),
+    'C11': dict(
+        text="Proved on Hl7.Heap: creating a traversal child (what a read of a missing child does) changes no child list and no parent pointer of any node, accepted or rejected; "
+             "set_parent_to_traversal on an element that is not a pending traversal child changes none either; a successful promotion appends to each list only elements that were "
+             "pending traversal children of that very element, each once, keeping every list's previous content and order (induction over the chain). That attribute reads, len, "
+             "iteration, repr, to_er7, validate go through these operations only, and that the first write creates the chain and nothing else at the positions the tables "
+             "define, is decided on /repo by the read-chain harness (snapshots of encoding, full tree and validation report before/after reads of depth 1-6 sampled from the "
+             "message structures of every version; element census after the write) - partial.",
+        note=NOTE_COMMON + "The proxy objects (ElementProxy) and the lookup that decides whether a child is missing are exercised, not modelled.",
+        technique="Lean 4 proof (frame lemmas; induction over the promotion chain) + differential correspondence + before/after snapshots on real read chains",
+        design="DESIGN.md §5 C09-C12"),
+    'C12': dict(
+        text="Proved on Hl7.Heap, for every heap, every structure and every cause of rejection: a rejected append, insert, remove, parent assignment or replace_child of a listed child "
+             "leaves the WHOLE heap - every child list, every parent and traversal pointer of every node - exactly as it was (for insert: as it was after moving out a child "
+             "the element already listed); a rejected replacement of a pending traversal child changes no list and no parent. Rejections that happen above the graph core "
+             "(value parsing under STRICT, wholesale replacement of an element's children, datatype change) are decided by before/after observation on API histories with "
+             "generated rejection causes (partial).",
+        note=NOTE_COMMON + "The traversal-parent setter, used only by create_element on a new element, is not atomic and is excluded. Findings D9a-c, D26, D27 were violations and are repaired in /repo.",
+        technique="Lean 4 proof (heap-surviving error monad; case analysis) + differential correspondence incl. exception kinds + before/after observation on API histories",
+        design="DESIGN.md §5 C09-C12"),
     'C04': dict(
         text="Proved on the model of Validator.validate (structured error list; validated against /repo incl. error order), one structure level at a time and for every "
              "structure and child list: a required row without a matching child yields 'Missing required child'; more children than a row's maximum yields 'Child limit "
